@@ -1193,7 +1193,7 @@ def unregistered_codes():
     return UNREGISTERED_CODES
 
 
-def unusual_body(k, transitive, values=None, flags=None, vlen=0):
+def unusual_body(k, transitive, values=None, flags=None, vlen=0, one_code=False):
     """ORIGIN, AS_PATH, NEXT_HOP, then k attributes of unregistered type codes (optional, or optional transitive), each
     with vlen value bytes, and one IPv4 NLRI.  The codes cycle through the unregistered ones: beyond ~200 attributes a
     type code repeats, which RFC 7606 3.g settles as 'all but the first discarded, the UPDATE continues to be processed'."""
@@ -1202,7 +1202,7 @@ def unusual_body(k, transitive, values=None, flags=None, vlen=0):
     for i in range(k):
         f = (0xC0 if transitive else 0x80) if flags is None else flags[i]
         v = [0] * vlen if values is None else values[i]
-        attrs.append([f, codes[i % len(codes)], len(v)] + list(v))
+        attrs.append([f, codes[0] if one_code else codes[i % len(codes)], len(v)] + list(v))
     return K.body([], attrs, [[24, 10, 0, 0]])
 
 
@@ -1301,11 +1301,12 @@ def h_limit(ctx, msg_size, transitive):
     return ('asked', msg_size)
 
 
-def h_many(ctx, ks, transitive, msg_size=4096):
-    """concrete sizes (k is the only variable): the largest UPDATEs the session allows decode, in linear work"""
+def h_many(ctx, ks, transitive, msg_size=4096, one_code=False):
+    """concrete sizes (k is the only variable): the largest UPDATEs the session allows decode, in linear work.
+    one_code: the SAME unknown attribute k times in a row (RFC 7606 3.g: all but the first are discarded, the UPDATE goes on)"""
     neg = session(extended=msg_size > 4096)
     k = ctx.pick('k', ks)
-    body = bytes(unusual_body(k, transitive))
+    body = bytes(unusual_body(k, transitive, one_code=one_code))
     if 19 + len(body) > msg_size:
         ctx.assume(False)
     reset_state()
@@ -1367,5 +1368,6 @@ def units(tier):
             us.append(Unit('unusual/depth/%s/k%d' % (kind, k), lambda ctx, k=k, tr=tr: h_depth(ctx, k, tr), reset=reset_state, hash_const=True, must_cover=('decoded',), weight=5))
         for size in (4096, 65535):
             us.append(Unit('unusual/limit/%s/%d' % (kind, size), lambda ctx, size=size, tr=tr: h_limit(ctx, size, tr), reset=reset_state, must_cover=('asked',), weight=5))
+        us.append(Unit('unusual/repeated/%s' % kind, lambda ctx, tr=tr: h_many(ctx, (2, 300, 1100, 1340), tr, one_code=True), reset=reset_state, must_cover=('ran',), weight=5))
         us.append(Unit('unusual/many/%s' % kind, lambda ctx, tr=tr: h_many(ctx, (64, 200, 400) if not th else (64, 200, 400, 800, 1356), tr), reset=reset_state, must_cover=('ran',), weight=5))
     return us
